@@ -16,7 +16,7 @@ def run(tier, seed):
              dict(universe="BXL", values=("a", "bb")), dict(universe="B6", values=("br65", "kv34", "blank")),
              dict(universe="B4", values=("a", "bb"), chain=2)]
     if tier == "thorough":
-        plans = [dict(universe="B10", values=("a", "bb")), dict(universe="B8", values=("a", "bb", "c33"), forms=("m", "i")),
+        plans = plans + [dict(universe="B10", values=("a", "bb")), dict(universe="B8", values=("a", "bb", "c33"), forms=("m", "i")),
                  dict(universe="B4L", values=("a", "bb", "c33"))]
     for kw in plans:
         sysm = BinSys(seed=seed, **kw)
